@@ -1,4 +1,5 @@
 import VtProofs.Converter
+import VtProofs.Source
 /-!
 # C06 — conversion selects and relocates tiles exactly as the options say
 
@@ -290,6 +291,50 @@ theorem stream_spec {β : Type} (s : Src β) (p : Params β) (b : BBox) (hb : b.
         rw [hr v] at hrv
         cases hrv
         rfl
+
+/-! ## stream_spec in the multiset (`Perm`) form of C02 -/
+
+/-- membership in `expected` (C02's reference list) in the vocabulary of `StreamExact` -/
+theorem mem_expected' {β : Type} (s : Src β) (b : BBox) (hb : b.WF) (c : Coord) (v : β) :
+    (c, v) ∈ expected s b ↔
+      (Coord.Valid c ∧ c.2.2 = b.level ∧ b.contains2 c.1 c.2.1 = true ∧ s.lookup c = .ok (some v)) := by
+  rw [VtModel.mem_expected]
+  simp only
+  constructor
+  · rintro ⟨h1, h2⟩
+    have hm := (VtModel.mem_coords3 b c).1 h1
+    exact ⟨VtModel.coords3_valid hb h1, hm.1, (BBox.contains2_iff b _ _).2 hm.2, h2⟩
+  · rintro ⟨_, h2, h3, h4⟩
+    exact ⟨(VtModel.mem_coords3 b c).2 ⟨h2, (BBox.contains2_iff b _ _).1 h3⟩, h4⟩
+
+/-- C02's `StreamOK` gives exactness on every well-formed box -/
+theorem streamOK_exact {β : Type} (s : Src β) (hs : StreamOK s) (b0 : BBox) (hb : b0.WF) :
+    ∃ l, StreamExact s b0 l := by
+  obtain ⟨l, h1, h2, h3⟩ := hs b0 hb
+  refine ⟨l, h1, h2, ?_⟩
+  intro c v
+  rw [h3.mem_iff, mem_expected' s b0 hb]
+
+/-- **stream_spec, multiset form / `convert_stream_ok`**: the converting reader over a source that
+    satisfies C02 (`StreamOK`) satisfies C02 itself – for every well-formed box (inside, across,
+    beyond the coverage, any empty encoding) its stream finishes, delivers no coordinate twice and
+    is a permutation of what its own lookups deliver inside the box,
+    `stream' b ≈ [(c, recode (src (T⁻¹ c))) | c ∈ b, src (T⁻¹ c) ≠ none]`.  All four flag pairs;
+    `cov` is whatever coverage is advertised. -/
+theorem convert_stream_ok {β : Type} (s : Src β) (p : Params β) (rc : β → β)
+    (hr : ∀ v, p.recode v = some (rc v)) (hs : StreamOK s) (cov : Pyramid) :
+    StreamOK (⟨lookup s p, stream s p, cov⟩ : Src β) := by
+  intro b hb
+  obtain ⟨l', h1, h2, h3⟩ := stream_spec s p b hb rc hr (fun b0 hb0 => by
+    obtain ⟨b0', hb0', w0, _⟩ := backBox_ok p b hb
+    rw [hb0] at hb0'
+    cases hb0'
+    exact streamOK_exact s hs b0 w0)
+  refine ⟨l', h1, h2, ?_⟩
+  apply VtModel.perm_of_nodup_mem_iff (VtModel.nodup_of_keys_nodup h2)
+    (VtModel.nodup_of_keys_nodup (VtModel.expected_keys_nodup _ b))
+  rintro ⟨c, v'⟩
+  rw [h3, mem_expected' (⟨lookup s p, stream s p, cov⟩ : Src β) b hb]
 
 /-! ## the conversion: selection theorem -/
 
